@@ -16,3 +16,19 @@ package middleware
 //@ effect[C33:other-hosts-untouched] every next.ServeHTTP(_, $req)
 //@     where old(r.Host) == baseEndpoint || !strings.HasSuffix(old(r.Host), "." + baseEndpoint) ==> $req.URL.Path == old(r.URL.Path)
 
+
+// Host routing: the full S3 API is reachable only under the API endpoint and its subdomains (label boundary
+// included); the website handler only under "<bucket>.<websiteEndpoint>" with that bucket as first path segment;
+// every other host goes to the fallback (custom-domain) handler.
+//@ func MakeHostnameRoutingHandler$1
+//@ mode effects
+//@ requires apiSuffix == "." + apiEndpoint && strings.HasPrefix(websiteSuffix, ".") && r != nil && r.URL != nil
+//@ requires apiHandler != websiteHandler && apiHandler != fallbackHandler && websiteHandler != fallbackHandler
+//@ requires !strings.Contains(r.Host, ":")
+//@ effect[C33:api-only-for-api-hosts] every apiHandler.ServeHTTP(_, _)
+//@     where old(r.Host) == apiEndpoint || strings.HasSuffix(old(r.Host), "." + apiEndpoint)
+//@ effect[C33:api-path-untouched] every apiHandler.ServeHTTP(_, $req) where $req.URL.Path == old(r.URL.Path)
+//@ effect[C33:website-only-for-website-hosts] every websiteHandler.ServeHTTP(_, $req)
+//@     where strings.HasSuffix(old(r.Host), websiteSuffix) && len(old(r.Host)) > len(websiteSuffix) &&
+//@         $req.URL.Path == "/" + old(r.Host)[:len(old(r.Host))-len(websiteSuffix)] + old(r.URL.Path)
+//@ effect[C33:fallback-path-untouched] every fallbackHandler.ServeHTTP(_, $req) where $req.URL.Path == old(r.URL.Path)
